@@ -641,6 +641,62 @@ pub fn run_srv_scenario(ver: Ver, steps: &[SrvStep], seed: u64) -> (String, Vec<
     (line, answers, verdicts)
 }
 
+/// a credential store whose account can be taken away in the middle of an exchange
+struct Revocable {
+    inner: SingleScramCredential,
+    revoked: std::sync::atomic::AtomicBool,
+}
+
+impl fe2o3_amqp::auth::scram::ScramCredentialProvider for Revocable {
+    fn scram_version(&self) -> &ScramVersion {
+        self.inner.scram_version()
+    }
+    fn get_stored_password<'a>(&'a self, username: &str) -> Option<fe2o3_amqp::auth::scram::StoredPassword<'a>> {
+        if self.revoked.load(std::sync::atomic::Ordering::SeqCst) {
+            None
+        } else {
+            self.inner.get_stored_password(username)
+        }
+    }
+}
+
+/// the account disappears between the server-first and the client-final message: whatever the client
+/// then sends — the honest proof or arbitrary bytes — the outcome is not `ok`
+fn run_revoked(report: &mut Report) {
+    for ver in [Ver::S1, Ver::S256, Ver::S512] {
+        for honest in [true, false] {
+            report.evaluations += 1;
+            report.count("scram_server_account_revoked_mid_exchange");
+            report.nontrivial_case(fnv(&format!("revoked-{:?}-{}", ver, honest)));
+            let cr = Crypto::new(ver);
+            let cred = SingleScramCredential::new(String::from_utf8_lossy(USER).to_string(), String::from_utf8_lossy(PASS).to_string(), ver.version()).expect("credential");
+            let store = std::sync::Arc::new(Revocable { inner: cred, revoked: std::sync::atomic::AtomicBool::new(false) });
+            let mut auth = ScramAuthenticator::new(store.clone());
+            let cn: Vec<u8> = b"rOprNGfwEbeRWgbNEkqO".to_vec();
+            let bare = [b"n=".as_ref(), USER, b",r=", &cn].concat();
+            let first = [b"n,,".as_ref(), &bare].concat();
+            let out = auth.on_init(SaslInit { mechanism: Symbol::from(ver.mech()), initial_response: Some(Binary::from(first)), hostname: None });
+            let challenge = match &out {
+                SaslServerFrame::Challenge(c) => c.challenge.to_vec(),
+                other => {
+                    report.finding(Finding { kind: "violation", key: "scram-server:honest-exchange-refused".into(), description: format!("{:?}: the honest client-first was answered with {}", ver, show_server_frame(other)), replay: json!({"property": "C19", "module": "sasl", "revoked": format!("{:?}", ver)}) });
+                    continue;
+                }
+            };
+            let fin = match parse_server_first(&challenge).and_then(|(nonce, salt, iters)| ref_client_final(&cr, PASS, &bare, &challenge, &nonce, &salt, iters)) {
+                Some((fin, _)) => fin,
+                None => continue,
+            };
+            store.revoked.store(true, std::sync::atomic::Ordering::SeqCst);
+            let msg = if honest { fin } else { b"c=biws,r=rOprNGfwEbeRWgbNEkqOxyz,p=AAAA".to_vec() };
+            let out = auth.on_response(SaslResponse { response: Binary::from(msg) });
+            if show_server_frame(&out).starts_with("o:ok") {
+                report.finding(Finding { kind: "violation", key: "scram-server:accepted:account-gone-before-the-final-message".into(), description: format!("{:?}: the account was removed from the credential store after the server-first message; the {} client-final was answered with {}", ver, if honest { "honest" } else { "arbitrary" }, show_server_frame(&out)), replay: json!({"property": "C19", "module": "sasl", "revoked": format!("{:?}", ver), "honest": honest}) });
+            }
+        }
+    }
+}
+
 fn run_scramsrv(rng: &mut Rng, report: &mut Report, lines: &mut Vec<String>, imp: &mut Vec<String>, n: u64) {
     for k in 0..n {
         let ver = *rng.pick(&[Ver::S256, Ver::S256, Ver::S1, Ver::S512]);
@@ -1608,7 +1664,17 @@ pub fn run_client_case(case: &ClientCase, seed: u64) -> Result<ClientObserved, S
                 SrvStepC::Challenge(kind) => {
                     let server_nonce = b"c2VydmVyLW5vbmNl";
                     let full_nonce: Vec<u8> = match kind {
-                        ChKind::NonceNotExtending => b"dG90YWxseS1vdGhlcg==".to_vec(),
+                        // not an extension of the client's nonce: something else altogether, or the client's
+                        // nonce with its first character changed followed by a server part (longer than the client's)
+                        ChKind::NonceNotExtending => {
+                            if seed % 2 == 0 || cur_nonce.is_empty() {
+                                b"dG90YWxseS1vdGhlcg==".to_vec()
+                            } else {
+                                let mut n = cur_nonce.clone();
+                                n[0] = if n[0] == b'A' { b'B' } else { b'A' };
+                                [n.as_slice(), server_nonce].concat()
+                            }
+                        }
                         ChKind::NonceExact => cur_nonce.clone(),
                         _ => [cur_nonce.as_slice(), server_nonce].concat(),
                     };
@@ -1844,6 +1910,7 @@ pub fn main(opts: &Opts) {
     let n = if thorough { 20000 } else { 2000 };
     run_plain(&mut rng, &mut report, &mut lines, &mut imp, n);
     run_scramsrv(&mut rng, &mut report, &mut lines, &mut imp, if thorough { 1500 } else { 150 });
+    run_revoked(&mut report);
     run_listener(&mut rng, &mut report, &mut lines, &mut imp, if thorough { 6000 } else { 600 });
     run_fixed_codes(&mut report);
     run_clients(&mut rng, &mut report, &mut lines, &mut imp, if thorough { 6000 } else { 600 });
